@@ -13,6 +13,7 @@ open NsTable
 open Dom
 open Construct
 open EasyList
+open UserField
 
 type sx = A of string | L of sx list
 
@@ -224,6 +225,13 @@ let dispatch (f : string) (args : sx list) : sx =
             sx_of_nat l.lv_factor ]) ls))
         (EasyList.style_from_string (str_of_sx s) (n_of_sx dl) (bool_of_sx sa))
   | "el_css", [s] -> sx_of_opt (fun (a, b) -> L [sx_of_str a; sx_of_str b]) (EasyList.css_split (str_of_sx s))
+  | "uf_update", [L data; L ds] ->
+      let pairs l = SL.map (function L [a; b] -> (nat_of_sx a, str_of_sx b) | _ -> failwith "pair") l in
+      let decl_of = function L [n; t; L v; L o] -> { d_name = str_of_sx n; d_type = str_of_sx t; d_vals = pairs v; d_other = pairs o } | _ -> failwith "decl" in
+      let data' = SL.map (function L [a; b] -> (str_of_sx a, str_of_sx b) | _ -> failwith "data") data in
+      sx_of_result (fun ds' -> L (SL.map (fun (r : (coq_N list * coq_N list) * coq_N list option) ->
+          let ((n, t), v) = r in L [sx_of_str n; sx_of_str t; sx_of_opt sx_of_str v])
+        (UserField.list_fields_and_values None ds'))) (UserField.update data' (SL.map decl_of ds))
   | _ -> failwith ("unknown function " ^ f)
 
 let () =
